@@ -9,6 +9,7 @@ META = meta('C05', level='other', extra_tb=None)
 def check(A):
     for fl in S.FLAVOURS:
         S.close_once(A, fl, 'C05')
+        S.who_may_rules(A, fl, 'C05', parts=('close', 'events', 'flags'))
         S.receive_table(A, fl, 'C05')
         S.post_request(A, fl, 'C05')
         S.ws_read_loop(A, fl, 'C05', closed_rule='C05.none-after')
